@@ -56,12 +56,25 @@ def main():
         rc = chk.finish()
         return rc
     except Broken as e:
-        print("ANALYSIS-BROKEN property=%s %s" % (pid, e))
-        return 2
+        return broken(chk, pid, str(e), a.no_evidence)
     except Exception:
         traceback.print_exc()
-        print("ANALYSIS-BROKEN property=%s internal error" % pid)
-        return 2
+        return broken(chk, pid, "internal error", a.no_evidence)
+
+
+def broken(chk, pid, why, no_evidence):
+    """A rule could not be analysed.  That is never a verdict by itself (exit 2) - but obligations that failed before
+    that point name a specific construct and do not depend on the rules that did not run: they are reported."""
+    try:
+        if chk.definite_violations():
+            if no_evidence:
+                chk.write_evidence = lambda *x, **k: None
+            print("ANALYSIS-INCOMPLETE property=%s %s" % (pid, why))
+            return chk.finish(partial=why)
+    except Exception:
+        pass
+    print("ANALYSIS-BROKEN property=%s %s" % (pid, why))
+    return 2
 
 
 if __name__ == "__main__":
